@@ -14,12 +14,11 @@ import (
 	"bytes"
 	"fmt"
 	"go/ast"
-	"go/parser"
 	"go/printer"
 	"go/token"
 	"go/types"
 	"os"
-	"path/filepath"
+	"regexp"
 	"sort"
 	"strings"
 
@@ -34,9 +33,18 @@ type Spec struct {
 	Pkg     string   // module-relative package path of the roots
 	Roots   []string // "Recv.Name" or "Name"
 	Exclude []string // callee names (same format) never inlined
+	// A callee is expanded only when it takes part in the mechanism the rules look at: its body (or the body of
+	// something it calls) has a go statement, a channel operation, a sync.WaitGroup call, a call of a function
+	// or method named in Keep, a parameter of a named type in KeepTypes, or a selection of a field in KeepFields.
+	Keep       []string
+	KeepTypes  []string
+	KeepFields []string
 }
 
 const maxDepth = 3
+
+var identRe = regexp.MustCompile(`[A-Za-z_][A-Za-z0-9_]*`)
+var callLike = regexp.MustCompile(`[A-Za-z0-9_\]]\(`)
 
 type edit struct {
 	start, end int
@@ -55,6 +63,8 @@ type inliner struct {
 	need   map[string]map[string]string // file -> import path -> local name
 	stack  []types.Object
 	locals map[string]bool // names declared in the current root function
+	spec   Spec
+	rel    map[types.Object]int // 0 unknown, 1 relevant, 2 not
 }
 
 func fname(fd *ast.FuncDecl, info *types.Info) string {
@@ -73,7 +83,7 @@ func Sources(p *core.Program, specs []Spec) map[string][]byte {
 		if pk == nil || pk.TypesInfo == nil {
 			continue
 		}
-		in := &inliner{p: p, pk: pk, info: pk.TypesInfo, src: map[string][]byte{}, excl: map[types.Object]bool{}, decls: map[*types.Func]*ast.FuncDecl{}, need: map[string]map[string]string{}}
+		in := &inliner{spec: sp, rel: map[types.Object]int{}, p: p, pk: pk, info: pk.TypesInfo, src: map[string][]byte{}, excl: map[types.Object]bool{}, decls: map[*types.Func]*ast.FuncDecl{}, need: map[string]map[string]string{}}
 		roots := map[string]bool{}
 		for _, r := range sp.Roots {
 			roots[r] = true
@@ -109,6 +119,9 @@ func Sources(p *core.Program, specs []Spec) map[string][]byte {
 					if id, ok := n.(*ast.Ident); ok && in.info.Defs[id] != nil {
 						in.locals[id.Name] = true
 					}
+					if l, ok := n.(*ast.LabeledStmt); ok {
+						in.locals["label:"+l.Label.Name] = true
+					}
 					return true
 				})
 				before := in.count
@@ -121,6 +134,11 @@ func Sources(p *core.Program, specs []Spec) map[string][]byte {
 		}
 		for file, eds := range perFile {
 			src := in.source(file)
+			if os.Getenv("RS_INL_DEBUG") != "" {
+				for _, e := range eds {
+					fmt.Printf("inl: file edit %s %d..%d (file %d bytes) old starts %q new starts %q\n", file, e.start, e.end, len(src), src[e.start:e.start+30], e.text[:30])
+				}
+			}
 			res := apply(src, eds)
 			res = in.withImports(file, res)
 			out[file] = res
@@ -133,7 +151,10 @@ func (in *inliner) source(file string) []byte {
 	if b, ok := in.src[file]; ok {
 		return b
 	}
-	b, _ := os.ReadFile(file)
+	b, ok := in.p.Overlay[file] // the loader may have parsed an in-memory version of the file
+	if !ok {
+		b, _ = os.ReadFile(file)
+	}
 	in.src[file] = b
 	return b
 }
@@ -232,6 +253,9 @@ func (in *inliner) expandR(file string, n ast.Node, depth int, sub subst, rets *
 	for i := range eds {
 		eds[i].start -= s
 		eds[i].end -= s
+		if os.Getenv("RS_INL_DEBUG") != "" && (eds[i].start < 0 || eds[i].end > e-s || eds[i].end < eds[i].start) {
+			fmt.Printf("inl: bad edit %d..%d in node %T of length %d: %q\n", eds[i].start, eds[i].end, n, e-s, eds[i].text[:min(40, len(eds[i].text))])
+		}
 	}
 	return string(apply(src[s:e], eds))
 }
@@ -262,6 +286,14 @@ type callee struct {
 }
 
 func (in *inliner) resolve(call *ast.CallExpr) *callee {
+	c := in.resolve0(call)
+	if os.Getenv("RS_INL_DEBUG") == "2" {
+		fmt.Printf("inl: resolve %s -> %v\n", in.text(call.Fun), c != nil)
+	}
+	return c
+}
+
+func (in *inliner) resolve0(call *ast.CallExpr) *callee {
 	fun := ast.Unparen(call.Fun)
 	var c *callee
 	switch f := fun.(type) {
@@ -343,7 +375,9 @@ func (in *inliner) resolve(call *ast.CallExpr) *callee {
 	ast.Inspect(c.body, func(m ast.Node) bool {
 		switch x := m.(type) {
 		case *ast.LabeledStmt:
-			bad = true
+			if in.locals["label:"+x.Label.Name] {
+				bad = true // the root function has a label of that name
+			}
 		case *ast.BranchStmt:
 			if x.Tok == token.GOTO {
 				bad = true
@@ -375,10 +409,84 @@ func (in *inliner) resolve(call *ast.CallExpr) *callee {
 		}
 		return !bad
 	})
-	if bad {
+	if bad || !in.relevant(c, 0) {
 		return nil
 	}
 	return c
+}
+
+func has(list []string, s string) bool {
+	for _, x := range list {
+		if x == s {
+			return true
+		}
+	}
+	return false
+}
+
+// relevant: see Spec.Keep.
+func (in *inliner) relevant(c *callee, depth int) bool {
+	if len(in.spec.Keep)+len(in.spec.KeepTypes)+len(in.spec.KeepFields) == 0 {
+		return true
+	}
+	if r := in.rel[c.obj]; r != 0 {
+		return r == 1
+	}
+	in.rel[c.obj] = 2
+	rel := false
+	for _, f := range c.typ.Params.List {
+		if has(in.spec.KeepTypes, core.NamedTypeName(in.info.TypeOf(f.Type))) {
+			rel = true
+		}
+	}
+	ast.Inspect(c.body, func(m ast.Node) bool {
+		switch x := m.(type) {
+		case *ast.GoStmt, *ast.SendStmt, *ast.SelectStmt:
+			rel = true
+		case *ast.UnaryExpr:
+			if x.Op == token.ARROW {
+				rel = true
+			}
+		case *ast.RangeStmt:
+			if t := in.info.TypeOf(x.X); t != nil {
+				if _, isChan := t.Underlying().(*types.Chan); isChan {
+					rel = true
+				}
+			}
+		case *ast.SelectorExpr:
+			if has(in.spec.KeepFields, x.Sel.Name) {
+				if sel, ok := in.info.Selections[x]; ok && sel.Kind() == types.FieldVal {
+					rel = true
+				}
+			}
+		case *ast.CallExpr:
+			switch f := ast.Unparen(x.Fun).(type) {
+			case *ast.Ident:
+				if f.Name == "close" || has(in.spec.Keep, f.Name) {
+					rel = true
+				}
+			case *ast.SelectorExpr:
+				if has(in.spec.Keep, f.Sel.Name) {
+					rel = true
+				}
+				if fn, ok := in.info.Uses[f.Sel].(*types.Func); ok && fn.Pkg() != nil && fn.Pkg().Path() == "sync" {
+					rel = true
+				}
+			}
+			if !rel && depth < maxDepth {
+				in.stack = append(in.stack, c.obj)
+				if c2 := in.resolve0(x); c2 != nil {
+					rel = true // resolve0 already required c2 to be relevant
+				}
+				in.stack = in.stack[:len(in.stack)-1]
+			}
+		}
+		return !rel
+	})
+	if rel {
+		in.rel[c.obj] = 1
+	}
+	return rel
 }
 
 func pureArg(info *types.Info, e ast.Expr) bool {
@@ -458,6 +566,16 @@ func (in *inliner) inline(file string, call *ast.CallExpr, c *callee, depth int,
 		}
 		return true
 	})
+	for _, f := range c.typ.Params.List {
+		for _, nm := range f.Names {
+			defs[nm.Name] = true
+		}
+	}
+	if c.recv != nil {
+		for _, nm := range c.recv.Names {
+			defs[nm.Name] = true
+		}
+	}
 	bind := func(name *ast.Ident, arg ast.Expr, argText string) {
 		obj := in.info.Defs[name]
 		if name.Name == "_" || obj == nil {
@@ -467,8 +585,8 @@ func (in *inliner) inline(file string, call *ast.CallExpr, c *callee, depth int,
 		ok := pureArg(in.info, arg) && !in.assigned(c.body, obj)
 		if ok {
 			for n := range identNames(arg) {
-				if defs[n] {
-					ok = false // a callee local would capture a name of the argument
+				if defs[n] && n != name.Name {
+					ok = false // a callee local / another parameter would capture a name of the argument
 				}
 			}
 		}
@@ -502,11 +620,30 @@ func (in *inliner) inline(file string, call *ast.CallExpr, c *callee, depth int,
 	if i != len(call.Args) {
 		return "", false
 	}
-	// result variables
-	var resNames []string
+	// result variables: the caller's targets themselves when the results are unnamed and the targets are plain
+	// lvalues (assigned at each return), temporaries otherwise
+	var resNames, outNames, inner, copyOut []string
 	var pre []string
 	nres := 0
+	direct := len(results) > 0
+	for _, r := range results {
+		if r == "" || callLike.MatchString(r) {
+			direct = false
+		}
+		for _, w := range identRe.FindAllString(r, -1) {
+			if defs[w] {
+				direct = false // a callee local of that name would capture the assignment
+			}
+		}
+	}
 	if c.typ.Results != nil {
+		for _, f := range c.typ.Results.List {
+			for _, nm := range f.Names {
+				if nm.Name != "_" {
+					direct = false
+				}
+			}
+		}
 		for _, f := range c.typ.Results.List {
 			k := len(f.Names)
 			if k == 0 {
@@ -514,12 +651,22 @@ func (in *inliner) inline(file string, call *ast.CallExpr, c *callee, depth int,
 			}
 			for j := 0; j < k; j++ {
 				name := fmt.Sprintf("inl%dr%d", in.label+1, nres)
+				out := name
 				if len(f.Names) > 0 && f.Names[j].Name != "_" {
-					name = f.Names[j].Name // named result: the callee's own variable
+					// named result: the callee's own variable lives in the callee's scope and is copied to a
+					// temporary when the body is left
+					name = f.Names[j].Name
+					inner = append(inner, "var "+name+" "+in.typeText(cfile, f.Type))
+					copyOut = append(copyOut, out+" = "+name)
+					keep = append(keep, name)
 				}
-				pre = append(pre, "var "+name+" "+in.typeText(cfile, f.Type))
+				if direct && nres < len(results) {
+					name, out = results[nres], results[nres]
+				} else {
+					pre = append(pre, "var "+out+" "+in.typeText(cfile, f.Type), "_ = "+out)
+				}
 				resNames = append(resNames, name)
-				keep = append(keep, name)
+				outNames = append(outNames, out)
 				nres++
 			}
 		}
@@ -536,6 +683,10 @@ func (in *inliner) inline(file string, call *ast.CallExpr, c *callee, depth int,
 	in.addImports(cfile, file)
 	var b strings.Builder
 	b.WriteString("{\n")
+	for _, p := range pre { // result temporaries: visible to the copy-out below, declared before the parameters can shadow anything
+		b.WriteString(p + "\n")
+	}
+	b.WriteString("{\n") // scope of the parameters and of the callee's body
 	if len(bindL) > 0 {
 		allBlank := true
 		for _, l := range bindL {
@@ -549,8 +700,8 @@ func (in *inliner) inline(file string, call *ast.CallExpr, c *callee, depth int,
 		}
 		b.WriteString(strings.Join(bindL, ", ") + " " + op + " " + strings.Join(bindR, ", ") + "\n")
 	}
-	for _, p := range pre {
-		b.WriteString(p + "\n")
+	for _, d := range inner {
+		b.WriteString(d + "\n")
 	}
 	for _, k := range keep {
 		b.WriteString("_ = " + k + "\n")
@@ -560,10 +711,17 @@ func (in *inliner) inline(file string, call *ast.CallExpr, c *callee, depth int,
 	} else {
 		b.WriteString(bodyTxt + "\n")
 	}
+	for _, cp := range copyOut {
+		b.WriteString(cp + "\n")
+	}
+	b.WriteString("}\n")
 	for k, r := range results {
-		if r != "" && r != "_" {
-			b.WriteString(r + " = " + resNames[k] + "\n")
+		if r != "" && r != "_" && !direct {
+			b.WriteString(r + " = " + outNames[k] + "\n")
 		}
+	}
+	if c.isLit { // the closure variable may have no other use left
+		b.WriteString("_ = " + c.obj.Name() + "\n")
 	}
 	b.WriteString("}")
 	in.count++
@@ -574,355 +732,5 @@ func (in *inliner) typeText(file string, t ast.Expr) string {
 	return in.expand(file, t, maxDepth, nil)
 }
 
-// site recognises a statement that is an inlinable call site and returns its replacement.
-func (in *inliner) site(file string, s ast.Stmt, depth int, sub subst, rets *retSpec, inLit bool) (string, bool) {
-	lhsText := func(e ast.Expr) string { return in.expand(file, e, depth, sub) }
-	switch st := s.(type) {
-	case *ast.ExprStmt:
-		call, ok := ast.Unparen(st.X).(*ast.CallExpr)
-		if !ok {
-			return "", false
-		}
-		if c := in.resolve(call); c != nil {
-			n := 0
-			if c.typ.Results != nil {
-				n = c.typ.Results.NumFields()
-			}
-			return in.inline(file, call, c, depth, sub, make([]string, n))
-		}
-	case *ast.AssignStmt:
-		if len(st.Rhs) != 1 {
-			return "", false
-		}
-		call, ok := ast.Unparen(st.Rhs[0]).(*ast.CallExpr)
-		if !ok {
-			return "", false
-		}
-		c := in.resolve(call)
-		if c == nil || st.Tok != token.ASSIGN && st.Tok != token.DEFINE {
-			return "", false
-		}
-		var decl []string
-		var res []string
-		k := 0
-		var rtypes []ast.Expr
-		if c.typ.Results != nil {
-			for _, f := range c.typ.Results.List {
-				m := len(f.Names)
-				if m == 0 {
-					m = 1
-				}
-				for j := 0; j < m; j++ {
-					rtypes = append(rtypes, f.Type)
-				}
-			}
-		}
-		if len(rtypes) != len(st.Lhs) {
-			return "", false
-		}
-		for _, l := range st.Lhs {
-			if id, isID := l.(*ast.Ident); isID && st.Tok == token.DEFINE && in.info.Defs[id] != nil && id.Name != "_" {
-				decl = append(decl, "var "+id.Name+" "+in.typeText(in.fileOf(c.body), rtypes[k]))
-			}
-			res = append(res, lhsText(l))
-			k++
-		}
-		body, ok := in.inline(file, call, c, depth, sub, res)
-		if !ok {
-			return "", false
-		}
-		return strings.Join(append(decl, body), "\n"), true
-	case *ast.IfStmt:
-		// if <init with call>; cond {..}   or   if [!]call(...) {..}
-		if st.Init != nil {
-			initTxt, ok := in.site(file, st.Init, depth, sub, rets, inLit)
-			if !ok {
-				return "", false
-			}
-			rest := in.ifWithout(file, st, depth, sub, rets, "")
-			return "{\n" + initTxt + "\n" + rest + "\n}", true
-		}
-		cond := ast.Unparen(st.Cond)
-		neg := ""
-		if u, ok := cond.(*ast.UnaryExpr); ok && u.Op == token.NOT {
-			cond, neg = ast.Unparen(u.X), "!"
-		}
-		call, ok := cond.(*ast.CallExpr)
-		if !ok {
-			return "", false
-		}
-		c := in.resolve(call)
-		if c == nil || c.typ.Results == nil || c.typ.Results.NumFields() != 1 {
-			return "", false
-		}
-		tmp := fmt.Sprintf("inl%dc", in.label+1)
-		body, ok := in.inline(file, call, c, depth, sub, []string{tmp})
-		if !ok {
-			return "", false
-		}
-		rest := in.ifWithout(file, st, depth, sub, rets, neg+tmp)
-		return "{\nvar " + tmp + " " + in.typeText(in.fileOf(c.body), c.typ.Results.List[0].Type) + "\n" + body + "\n" + rest + "\n}", true
-	case *ast.ReturnStmt:
-		if rets != nil && !inLit || len(st.Results) != 1 {
-			return "", false // returns of an inlined callee are rewritten elsewhere
-		}
-		call, ok := ast.Unparen(st.Results[0]).(*ast.CallExpr)
-		if !ok {
-			return "", false
-		}
-		c := in.resolve(call)
-		if c == nil || c.typ.Results == nil {
-			return "", false
-		}
-		var names, decl []string
-		k := 0
-		for _, f := range c.typ.Results.List {
-			m := len(f.Names)
-			if m == 0 {
-				m = 1
-			}
-			for j := 0; j < m; j++ {
-				n := fmt.Sprintf("inl%dt%d", in.label+1, k)
-				names = append(names, n)
-				decl = append(decl, "var "+n+" "+in.typeText(in.fileOf(c.body), f.Type))
-				k++
-			}
-		}
-		body, ok := in.inline(file, call, c, depth, sub, names)
-		if !ok {
-			return "", false
-		}
-		return "{\n" + strings.Join(decl, "\n") + "\n" + body + "\nreturn " + strings.Join(names, ", ") + "\n}", true
-	case *ast.GoStmt:
-		c := in.resolve(st.Call)
-		if c == nil {
-			return "", false
-		}
-		// go h(args)  ==>  go func(params) results { body }(args): the function value is replaced by a literal
-		cfile := in.fileOf(c.body)
-		var params, args []string
-		if c.recv != nil {
-			if len(c.recv.Names) != 1 {
-				return "", false
-			}
-			params = append(params, c.recv.Names[0].Name+" "+in.typeText(cfile, c.recv.Type))
-			args = append(args, in.expand(file, c.recvX, depth, sub))
-		}
-		for _, f := range c.typ.Params.List {
-			var ns []string
-			for _, nm := range f.Names {
-				ns = append(ns, nm.Name)
-			}
-			params = append(params, strings.Join(ns, ", ")+" "+in.typeText(cfile, f.Type))
-		}
-		for _, a := range st.Call.Args {
-			args = append(args, in.expand(file, a, depth, sub))
-		}
-		resTxt := ""
-		if c.typ.Results != nil && c.typ.Results.NumFields() > 0 {
-			resTxt = " " + in.text(c.typ.Results)
-		}
-		in.stack = append(in.stack, c.obj)
-		body := in.expand(cfile, c.body, depth+1, nil)
-		in.stack = in.stack[:len(in.stack)-1]
-		in.addImports(cfile, file)
-		in.count++
-		return "go func(" + strings.Join(params, ", ") + ")" + resTxt + " " + body + "(" + strings.Join(args, ", ") + ")", true
-	}
-	return "", false
-}
-
-// ifWithout prints an if statement without its init, with the condition text replaced when cond != "".
-func (in *inliner) ifWithout(file string, st *ast.IfStmt, depth int, sub subst, rets *retSpec, cond string) string {
-	if cond == "" {
-		cond = in.expandR(file, st.Cond, depth, sub, rets)
-	}
-	out := "if " + cond + " " + in.expandR(file, st.Body, depth, sub, rets)
-	if st.Else != nil {
-		out += " else " + in.expandR(file, st.Else, depth, sub, rets)
-	}
-	return out
-}
-
-// addImports records that text taken from file `from` was placed into file `to`.
-func (in *inliner) addImports(from, to string) {
-	if from == to {
-		return
-	}
-	var ff *ast.File
-	for _, f := range in.pk.Syntax {
-		if in.p.Fset.Position(f.Pos()).Filename == from {
-			ff = f
-		}
-	}
-	if ff == nil {
-		return
-	}
-	if in.need[to] == nil {
-		in.need[to] = map[string]string{}
-	}
-	for _, im := range ff.Imports {
-		name := ""
-		if im.Name != nil {
-			name = im.Name.Name
-		}
-		in.need[to][im.Path.Value] = name
-	}
-}
-
-// withImports adds the imports that inlined text needs and the file lacks;
-// unused ones are harmless only if referenced, so each added import is kept
-// alive by a blank use of the package's name? Go rejects unused imports, so
-// only imports whose local name occurs in the new text are added.
-func (in *inliner) withImports(file string, src []byte) []byte {
-	need := in.need[file]
-	if len(need) == 0 {
-		return src
-	}
-	f, err := parser.ParseFile(token.NewFileSet(), file, src, parser.ImportsOnly)
-	if err != nil {
-		return src
-	}
-	have := map[string]bool{}
-	for _, im := range f.Imports {
-		have[im.Path.Value] = true
-	}
-	var add []string
-	for path, name := range need {
-		if have[path] || name == "_" || name == "." {
-			continue
-		}
-		local := name
-		if local == "" {
-			// default name: declared package name
-			for _, ip := range in.pk.Imports {
-				if `"`+ip.PkgPath+`"` == path {
-					local = ip.Name
-				}
-			}
-		}
-		if local == "" || !bytes.Contains(src, []byte(local+".")) {
-			continue
-		}
-		add = append(add, name+" "+path)
-	}
-	if len(add) == 0 {
-		return src
-	}
-	sort.Strings(add)
-	// insert after the package clause
-	idx := bytes.Index(src, []byte("\npackage "))
-	if bytes.HasPrefix(src, []byte("package ")) {
-		idx = 0
-	} else {
-		idx++
-	}
-	end := idx + bytes.IndexByte(src[idx:], '\n') + 1
-	ins := "import (\n\t" + strings.Join(add, "\n\t") + "\n)\n"
-	return append(append(append([]byte{}, src[:end]...), []byte(ins)...), src[end:]...)
-}
-
 // ---------------------------------------------------------------------------
 // loading the rewritten module
-
-// Load type-checks the module again with the given files replaced (on top of
-// the loader's duplicate-const normalisation). It returns nil when the copy
-// does not type-check like the original (the caller then keeps the original).
-func Load(p *core.Program, files map[string][]byte) *core.Program {
-	if len(files) == 0 {
-		return nil
-	}
-	srcRoot := filepath.Join(core.RepoDir(), "src")
-	overlay := map[string][]byte{}
-	filepath.Walk(srcRoot, func(path string, fi os.FileInfo, err error) error {
-		if err != nil || fi.IsDir() || !strings.HasSuffix(path, ".go") {
-			return nil
-		}
-		src, ok := files[path]
-		if !ok {
-			var e error
-			if src, e = os.ReadFile(path); e != nil {
-				return nil
-			}
-		}
-		if out := blankDuplicateConsts(path, src); out != nil {
-			overlay[path] = out
-		} else if ok {
-			overlay[path] = src
-		}
-		return nil
-	})
-	env := append(os.Environ(), "GOWORK=off", "GOFLAGS=-mod=mod", "GOPROXY=off", "GOSUMDB=off", "GOTOOLCHAIN=local", "CGO_ENABLED=0")
-	if p.GOOS != "" {
-		env = append(env, "GOOS="+p.GOOS)
-	}
-	cfg := &packages.Config{Mode: packages.LoadAllSyntax, Dir: srcRoot, Env: env, Overlay: overlay, Tests: p.WithTests}
-	pkgs, err := packages.Load(cfg, "./...")
-	if err != nil {
-		return nil
-	}
-	np := &core.Program{Shared: map[string]interface{}{}, All: map[string]*packages.Package{}, Normalisations: p.Normalisations, WithTests: p.WithTests, GOOS: p.GOOS}
-	packages.Visit(pkgs, nil, func(pk *packages.Package) {
-		if np.Fset == nil && pk.Fset != nil {
-			np.Fset = pk.Fset
-		}
-		if _, ok := np.All[pk.PkgPath]; !ok || pk.ID == pk.PkgPath {
-			np.All[pk.PkgPath] = pk
-		}
-	})
-	seen := map[string]bool{}
-	for _, pk := range pkgs {
-		if !strings.HasPrefix(pk.PkgPath, core.Module) || strings.HasSuffix(pk.PkgPath, ".test") || seen[pk.ID] {
-			continue
-		}
-		seen[pk.ID] = true
-		np.Pkgs = append(np.Pkgs, pk)
-		for range pk.Errors {
-			if pk.PkgPath == core.MainPkg || strings.HasPrefix(pk.ID, core.MainPkg+" ") {
-				np.MainTypeErrors++
-				continue
-			}
-			return nil // the rewritten copy does not type-check: discard it
-		}
-	}
-	sort.Slice(np.Pkgs, func(i, j int) bool { return np.Pkgs[i].ID < np.Pkgs[j].ID })
-	if len(np.Pkgs) < len(p.Pkgs) {
-		return nil
-	}
-	return np
-}
-
-func blankDuplicateConsts(path string, src []byte) []byte {
-	fset := token.NewFileSet()
-	f, perr := parser.ParseFile(fset, path, src, parser.SkipObjectResolution)
-	if perr != nil || f == nil {
-		return nil
-	}
-	seen := map[string]bool{}
-	var out []byte
-	for _, d := range f.Decls {
-		gd, ok := d.(*ast.GenDecl)
-		if !ok || gd.Tok != token.CONST {
-			continue
-		}
-		var buf bytes.Buffer
-		if err := printer.Fprint(&buf, fset, gd); err != nil {
-			continue
-		}
-		k := buf.String()
-		if !seen[k] {
-			seen[k] = true
-			continue
-		}
-		if out == nil {
-			out = append([]byte(nil), src...)
-		}
-		s, e := fset.Position(gd.Pos()).Offset, fset.Position(gd.End()).Offset
-		for i := s; i < e && i < len(out); i++ {
-			if out[i] != '\n' {
-				out[i] = ' '
-			}
-		}
-	}
-	return out
-}
